@@ -72,7 +72,7 @@ class EdgeMonitor(Monitor):
                     self.r.violation(explain(self.p, 'always-run-job-cancelled', scopes), f'always-run job {k} moved {ps} -> Cancelled', {'job': list(k), 'edge': [ps, s]})
                 if self.check_cancel and j['always_run'] and s in TERMINAL:
                     ctx.count('always_run_jobs_reaching_a_terminal_state')
-                if self.check_cancel and s in ('Creating', 'Running') and ps not in ('Creating', 'Running'):
+                if self.check_cancel and ((s in ('Creating', 'Running') and ps not in ('Creating', 'Running')) or (s == 'Running' and ps == 'Creating')):
                     if self.prev_marked.get(k) and not j['always_run']:
                         self.r.violation(explain(self.p, 'cancelled-job-started/entered-' + s.lower(), scopes),
                                          f'job {k} (not always_run) entered {s} although it was already marked cancelled', {'job': list(k), 'edge': [ps, s]})
